@@ -2,7 +2,7 @@
 import path_common as pc
 
 def run(ck):
-    ck.level = "translation_validation"
+    ck.level = "proof"
     ck.cov["rule"] = ("all pairs of strings over {'/', '.', 'a'} up to length 5 (quick) / 6 (thorough) plus seeded random pairs and NULL arguments where the API allows them: "
                       "join text, lexically_relative text or NULL, preferred text are compared with the model; the harness judges join against C++17 operator/ (text), "
                       "relative against lexically_relative (NULL iff empty; same path) of libstdc++; each argument in its own exact-size heap block under ASan")
